@@ -20,6 +20,10 @@ pub struct C04;
 pub const PRELUDE: &str = r#"
 (define (churn n) (let loop ((i 0)) (when (< i n) (box i) (mutable-vector i i) (loop (+ i 1)))))
 (struct cell (a b) #:mutable)
+(define (mk-frame b) (lambda (thunk) (let ((r (thunk))) (cons (unbox b) r))))
+(define kcell (box #f))
+(define (capture-here) (call/cc (lambda (c) (set-box! kcell c) 1)))
+(define (holder b) (lambda () (let ((v (capture-here))) (+ v (unbox b)))))
 (define (rec-keep base n)
   (if (= n 0)
       '()
@@ -59,7 +63,8 @@ pub const KINDS: &[&str] = &[
     "continuation-reentered", "handler-capture", "global", "tls", "nested-containers",
     "transducer-state", "being-allocated", "struct-field", "vector-set", "box-chain",
     "map-callback", "dynamic-wind", "apply-args", "frames-deep", "make-vector-fill",
-    "continuation-escaped", "closure-in-container", "host-rooted",
+    "continuation-escaped", "closure-in-container", "host-rooted", "frame-closure-temp",
+    "continuation-frame-capture",
 ];
 
 /// One item: (kind, definitions to run first, expression, expected rendering).
@@ -179,6 +184,21 @@ pub fn gen_item(g: &mut Gen, kind: &str, uid: usize) -> (String, String, String)
             String::new(),
             format!("(let ((v (make-vector 3 (box {a})))) {k1} (list (unbox (mut-vector-ref v 0)) (unbox (mut-vector-ref v 2))))"),
             list_str(&[a, a]),
+        ),
+        "frame-closure-temp" => (
+            // two instances of one lambda are active frames; each instance's box
+            // is referenced only from its frame's function
+            String::new(),
+            format!("((mk-frame (box {a})) (lambda () ((mk-frame (box {b})) (lambda () (begin {k1} '())))))"),
+            list_str(&[a, b]),
+        ),
+        "continuation-frame-capture" => (
+            // a continuation captured under a closure frame; afterwards the
+            // closure (and the box it captured) is reachable only through the
+            // saved frames of the continuation, which is then re-entered
+            String::new(),
+            format!("(let ((n (box 0))) (let ((r ((holder (box {a}))))) {k1} (if (= (unbox n) 0) (begin (set-box! n 1) {k2} ((unbox kcell) 5)) (list r))))"),
+            list_str(&[a + 5]),
         ),
         "closure-in-container" => (
             String::new(),
